@@ -1,10 +1,84 @@
 (* C17 -- iCalendar VTIMEZONE zones agree with the same rules given as a TZ string.
-   Statements only; proofs are in posix/IcalThm.v. *)
+   Statements only; proofs are in posix/IcalThm.v, posix/IcalEquiv.v, posix/IcalParseThm.v over
+   the hand model posix/IcalModel.v (_tzicalvtz._find_comp / _find_compdt / utcoffset / dst /
+   tzname with the lookup cache, tzical._parse_rfc / _parse_offset / get) and the tzrange / tzstr
+   model and POSIX specification of C08. *)
+From Coq Require Import String Ascii.
 From Coq Require Import ZArith List Bool.
-From V Require Import base.Cal posix.PTime posix.RDelta posix.TzParseModel posix.IcalModel
-     posix.IcalThm.
+From V Require Import base.Cal posix.PTime posix.RDelta posix.TzParseModel posix.TzRangeModel
+     posix.PosixSpec posix.TransThm posix.MainThm posix.PosixThm posix.IcalModel posix.IcalThm
+     posix.IcalEquiv posix.IcalParseThm posix.WallThm posix.IcalWall posix.IcalUtc.
 Import ListNotations.
 Open Scope Z_scope.
+
+(* MAIN.  comp_daylight r ds y0 n / comp_standard r ds y0 n (IcalEquiv.v) are the DAYLIGHT and
+   STANDARD components whose onsets are the rule's start events (local standard time) and end
+   events (local daylight time) of the years y0 .. y0+n-1 -- ANY first year, ANY number of years.
+   For every wall reading w of a year after y0 inside that horizon and either fold, the VTIMEZONE
+   zone reports the offset, dst and abbreviation the tzstr zone of the same rule reports (gaps and
+   folds included), in either component order.  guard = wf_posix && guard_apart && guard_d8 is
+   C08's guard (tzstr itself is wrong outside guard_d8, finding F-C08-1). *)
+Theorem C17_ical_equiv_tzstr : forall r ds po y0 n w f cs,
+  r.(p_dst) = Some ds -> guard r = true -> (po = true \/ not_gmt_utc r.(p_name) = true) ->
+  cs = [comp_daylight r ds y0 n; comp_standard r ds y0 n] \/
+  cs = [comp_standard r ds y0 n; comp_daylight r ds y0 n] ->
+  y0 < year_of_secs w < y0 + Z.of_nat n ->
+  exists z, tzstr_of_res (Ok (Some (ast_of_posix r))) po = Ok z /\
+            ic_observe_wall cs w f = observe_wall z w f.
+Proof. exact ical_equiv_tzstr_lemma. Qed.
+Print Assumptions C17_ical_equiv_tzstr.
+
+(* the same against ANY rule zone (tzrange or tzstr) with the rule's attributes and transitions,
+   without guard_d8 *)
+Theorem C17_ical_equiv_range : forall r ds,
+  r.(p_dst) = Some ds -> wf_posix r = true -> guard_apart r = true ->
+  forall y0 n z w f cs, zone_for r ds z ->
+  cs = [comp_daylight r ds y0 n; comp_standard r ds y0 n] \/
+  cs = [comp_standard r ds y0 n; comp_daylight r ds y0 n] ->
+  y0 < year_of_secs w < y0 + Z.of_nat n ->
+  ic_observe_wall cs w f = observe_wall z w f.
+Proof. exact ical_equiv_wall. Qed.
+Print Assumptions C17_ical_equiv_range.
+
+(* ... and hence against the POSIX specification itself: a wall reading that denotes an instant
+   (normal, or ambiguous with its fold; wall_instant of PosixSpec.v) observes through the
+   VTIMEZONE zone what POSIX prescribes at that instant *)
+Theorem C17_ical_wall_posix : forall r ds y0 n w f cs u z,
+  r.(p_dst) = Some ds -> wf_posix r = true -> guard_apart r = true -> zone_for r ds z ->
+  cs = [comp_daylight r ds y0 n; comp_standard r ds y0 n] \/
+  cs = [comp_standard r ds y0 n; comp_daylight r ds y0 n] ->
+  y0 < year_of_secs w < y0 + Z.of_nat n ->
+  wall_instant r w f = Some u ->
+  ic_observe_wall cs w f = Ok (let '(o, d, n) := posix_observe r u in (o, d, Some n)).
+Proof. exact ical_wall_posix_lemma. Qed.
+Print Assumptions C17_ical_wall_posix.
+
+(* UTC -> local (utc.astimezone(zone), i.e. the generic _tzinfo.fromutc over the component
+   lookup): at EVERY instant u whose surrounding day lies in the years after the first onsets and
+   inside the horizon, the VTIMEZONE zone reports what POSIX prescribes -- offset, dst,
+   abbreviation, on the wall reading u + offset; either component order *)
+Theorem C17_ical_utc_posix : forall r ds,
+  r.(p_dst) = Some ds -> wf_posix r = true -> guard_apart r = true ->
+  forall y0 n cs,
+  cs = [comp_daylight r ds y0 n; comp_standard r ds y0 n] \/
+  cs = [comp_standard r ds y0 n; comp_daylight r ds y0 n] ->
+  forall u, in_range y0 n (u - DAY) -> in_range y0 n (u + DAY) ->
+  exists f, ic_observe_utc cs u =
+    Ok (let '(o, d, nm) := posix_observe r u in (u + o, f, o, d, Some nm)).
+Proof. exact ical_utc_posix. Qed.
+Print Assumptions C17_ical_utc_posix.
+
+(* before the first onset of every component the first STANDARD component applies, else the
+   first component (the code after fix 7ee86cc) *)
+Theorem C17_before_first_onset : forall cs w f,
+  (forall c, In c cs -> find_compdt c w f = None) ->
+  find_comp_nocache cs w f =
+    match first_std cs 0 with
+    | Some i => Some i
+    | None => match cs with [] => None | _ => Some O end
+    end.
+Proof. exact before_first_onset_lemma. Qed.
+Print Assumptions C17_before_first_onset.
 
 (* the ten-entry lookup cache never changes an answer: any sequence of wall-time queries through
    the cached _find_comp gives the answers of the stateless component selection *)
@@ -12,3 +86,48 @@ Theorem C17_cache_never_changes_an_answer : forall cs qs,
   run_queries cs [] qs = map (fun '(w, f) => ic_utcoffset cs w f) qs.
 Proof. exact cache_never_changes_an_answer. Qed.
 Print Assumptions C17_cache_never_changes_an_answer.
+
+(* malformed definitions raise ValueError: in every parser state ... *)
+Theorem C17_malformed_missing_tzid : forall st,
+  st.(ps_invtz) = true -> truthy_ostr st.(ps_comptype) = false ->
+  truthy_ostr st.(ps_tzid) = false ->
+  step st (zs "END:VTIMEZONE") = Err EValue.
+Proof. exact end_vtimezone_without_tzid. Qed.
+Print Assumptions C17_malformed_missing_tzid.
+
+Theorem C17_malformed_no_component : forall st,
+  st.(ps_invtz) = true -> truthy_ostr st.(ps_comptype) = false -> st.(ps_comps) = [] ->
+  step st (zs "END:VTIMEZONE") = Err EValue.
+Proof. exact end_vtimezone_without_component. Qed.
+Print Assumptions C17_malformed_no_component.
+
+Theorem C17_malformed_missing_dtstart_or_offset : forall st (daylight : bool),
+  let ct := if daylight then zs "DAYLIGHT" else zs "STANDARD" in
+  st.(ps_invtz) = true -> st.(ps_comptype) = Some ct ->
+  st.(ps_founddtstart) = false \/ st.(ps_from) = None \/ st.(ps_to) = None ->
+  step st (zs "END:" ++ ct) = Err EValue.
+Proof. exact end_component_incomplete. Qed.
+Print Assumptions C17_malformed_missing_dtstart_or_offset.
+
+Theorem C17_malformed_unknown_component : forall st v,
+  st.(ps_invtz) = true -> v <> zs "STANDARD" -> v <> zs "DAYLIGHT" ->
+  step st (zs "BEGIN:" ++ v) = Err EValue.
+Proof. exact begin_unknown_component. Qed.
+Print Assumptions C17_malformed_unknown_component.
+
+(* ... and an error at any line is the result of the whole parse *)
+Theorem C17_malformed_line_fails_parse : forall st l1 l l2 e,
+  (forall st', run_lines st l1 = Ok st' -> step st' l = Err e) ->
+  (exists st', run_lines st l1 = Ok st') ->
+  run_lines st (l1 ++ l :: l2) = Err e.
+Proof. exact run_lines_err. Qed.
+Print Assumptions C17_malformed_line_fails_parse.
+
+(* several zones are addressable by TZID, a single zone is returned without naming it *)
+Theorem C17_multi_tzid_addressing : forall d k v,
+  ical_get (dict_set d k v) (Some k) = Ok (Some v) /\
+  (forall k', k' <> k -> ical_get (dict_set d k v) (Some k') = ical_get d (Some k')) /\
+  ical_get [(k, v)] None = Ok (Some v) /\
+  (forall vtz, length vtz <> 1%nat -> ical_get vtz None = Err EValue).
+Proof. exact multi_tzid_addressing_lemma. Qed.
+Print Assumptions C17_multi_tzid_addressing.
